@@ -48,21 +48,27 @@ where
     Empty,
 }
 
+/// Message a `SequentialWriter` sends to its successor when it is destroyed.
+///
+/// It carries the trigger the destroyed writer had not waited for yet (if any): the
+/// successor then waits for it instead, so that it never overtakes an earlier writer.
+pub struct Turn(Option<Receiver<Turn>>);
+
 pub struct SequentialWriterBuilder<W>
 where
     W: Write + Send,
 {
     writer: Arc<Mutex<W>>,
-    next_trigger: Option<Receiver<()>>,
+    next_trigger: Option<Receiver<Turn>>,
 }
 
 pub struct SequentialWriter<W>
 where
     W: Write + Send,
 {
-    trigger: Option<Receiver<()>>,
+    trigger: Option<Receiver<Turn>>,
     writer: Arc<Mutex<W>>,
-    on_finish: Sender<()>,
+    on_finish: Sender<Turn>,
 }
 
 impl<R: Read + Send> SequentialReaderBuilder<R> {
@@ -133,21 +139,24 @@ impl<R: Read + Send> Read for SequentialReader<R> {
     }
 }
 
+impl<W: Write + Send> SequentialWriter<W> {
+    /// Blocks until all the previous writers have been destroyed.
+    fn wait_for_turn(&mut self) {
+        while let Some(v) = self.trigger.take() {
+            self.trigger = v.recv().unwrap().0;
+        }
+    }
+}
+
 impl<W: Write + Send> Write for SequentialWriter<W> {
     fn write(&mut self, buf: &[u8]) -> IoResult<usize> {
-        if let Some(v) = self.trigger.as_mut() {
-            v.recv().unwrap()
-        }
-        self.trigger = None;
+        self.wait_for_turn();
 
         self.writer.lock().unwrap().write(buf)
     }
 
     fn flush(&mut self) -> IoResult<()> {
-        if let Some(v) = self.trigger.as_mut() {
-            v.recv().unwrap()
-        }
-        self.trigger = None;
+        self.wait_for_turn();
 
         self.writer.lock().unwrap().flush()
     }
@@ -178,6 +187,8 @@ where
     W: Write + Send,
 {
     fn drop(&mut self) {
-        self.on_finish.send(()).ok();
+        // a writer that was never used has not waited for its predecessors: hand that
+        // obligation on instead of releasing the successor at once
+        self.on_finish.send(Turn(self.trigger.take())).ok();
     }
 }
